@@ -9,6 +9,7 @@ import (
 	"fmt"
 	"io"
 	"log"
+	"os"
 	"strings"
 	"testing"
 
@@ -23,15 +24,16 @@ func TestMain(m *testing.M) {
 	pbt.Main(m, "C15")
 }
 
-// Findings on the unchanged tree that wait for a decision (props/c15/FINDINGS.md): the generators
-// steer around their signature and count it, exactly as for a listed known finding.
-var pending = map[string]bool{keyPosRefGap: true}
+// Findings on the unchanged tree that wait for a decision (props/c15/FINDINGS.md) would be listed here:
+// the generators steer around the signature of a pending or known finding and count it. None at present
+// (`goalign mask --ref-seq R --pos a,b` with a gap replacement was repaired by 4edb852 and is judged
+// unrestricted).
+var pending = map[string]bool{}
 
-func steerAround(key string) bool { return pbt.Known(key) || pending[key] }
-
-// `goalign mask --ref-seq R --pos a,b` converts b on the reference row already rewritten for a: when the
-// replacement is a gap the later positions address other columns
-const keyPosRefGap = "mask-pos-refseq-gap-shifts-later-positions"
+// VERIF_NO_PENDING=1 judges the pending signatures strictly (to try a candidate repair in a scratch copy)
+func steerAround(key string) bool {
+	return pbt.Known(key) || (pending[key] && os.Getenv("VERIF_NO_PENDING") == "")
+}
 
 // ---- the model --------------------------------------------------------------------------------------
 
